@@ -39,6 +39,9 @@ def py_index(idx, variant=0):
     c = py_colsel(idx["c"], variant)
     if r is Ellipsis and c is Ellipsis:
         r = slice(None)
+    if r is not Ellipsis and c is not Ellipsis and variant % 5 == 4:
+        # an Ellipsis next to a complete (rows, cols) pair stands for no axis at all (numpy: a[i, ..., j] is a[i, j])
+        return [(Ellipsis, r, c), (r, Ellipsis, c), (r, c, Ellipsis)][(variant // 5) % 3]
     return (r, c)
 
 
@@ -152,7 +155,21 @@ def colsels_exhaustive(m, rng, n_slices=20, full_grid=False):
     if not full_grid:
         for a, b, k in [(None, None, None), (None, None, -1), (1, None, None), (None, -1, None), (None, None, 2), (1, None, -1), (None, 0, -1)]:
             out.append({"t": "slice", "a": a, "b": b, "k": k})
+        h = rng.choice(HUGE)
+        a, b, k = rng.choice([(None, h, None), (-h, None, None), (None, None, h), (None, None, -h), (h, None, -1), (None, -h, -1), (0, h, 2)])
+        out.append({"t": "slice", "a": a, "b": b, "k": k})
     return out
+
+
+# Python integers of any size are valid slice bounds and steps (they clamp); values around the 32- and 64-bit limits
+HUGE = [2 ** 31 - 1, 2 ** 31, 2 ** 31 + 1, 2 ** 62, 2 ** 63 - 1]
+
+
+def _maybe_huge(sl, rng, p=0.04):
+    if rng.random() < p:
+        f = rng.choice(["a", "b", "k"])
+        sl[f] = rng.choice(HUGE) * rng.choice([1, -1])
+    return sl
 
 
 def rowsel_random(n, rng):
@@ -164,7 +181,7 @@ def rowsel_random(n, rng):
     if r < 0.55:
         def bd():
             return None if rng.random() < 0.25 else rng.randint(-(n + 3), n + 3)
-        return {"t": "slice", "a": bd(), "b": bd(), "k": rng.choice([None, 1, 2, 3, -1, -2, -3, 5, -4])}
+        return _maybe_huge({"t": "slice", "a": bd(), "b": bd(), "k": rng.choice([None, 1, 2, 3, -1, -2, -3, 5, -4])}, rng)
     if r < 0.8:
         k = rng.randint(0, max(1, min(8, n + 2)))
         bad = rng.random() < 0.1
@@ -184,7 +201,7 @@ def colsel_random(m, rng):
         return {"t": "int", "i": rng.randint(-(m + 1), m)}
     def bd():
         return None if rng.random() < 0.25 else rng.randint(-(m + 3), m + 3)
-    return {"t": "slice", "a": bd(), "b": bd(), "k": rng.choice([None, 1, 1, 2, 3, -1, -1, -2, -3, 7, -5, 0] if rng.random() < 0.05 else [None, 1, 1, 2, 3, -1, -1, -2, -3, 7, -5])}
+    return _maybe_huge({"t": "slice", "a": bd(), "b": bd(), "k": rng.choice([None, 1, 1, 2, 3, -1, -1, -2, -3, 7, -5, 0] if rng.random() < 0.05 else [None, 1, 1, 2, 3, -1, -1, -2, -3, 7, -5])}, rng)
 
 
 def idx_kind(idx):
